@@ -1,9 +1,13 @@
 #!/bin/sh
-# Offline setup: make sure Hypothesis is importable by /venv/bin/python (it already is on this image).
+# Offline setup: Hypothesis must be importable by /venv/bin/python (it already is on this image); atheris (thorough tier of
+# C12 only) is installed into ./.deps from the offline wheelhouse.
 set -e
 cd "$(dirname "$0")"
 if ! /venv/bin/python -c "import hypothesis" 2>/dev/null; then
   PIP_NO_INDEX=1 /venv/bin/pip install --no-index --find-links /opt/veriftools/wheels hypothesis
+fi
+if [ ! -d .deps/atheris ]; then
+  PIP_NO_INDEX=1 /venv/bin/pip install -q --no-index --find-links /opt/veriftools/wheels --target .deps atheris 2>/dev/null || echo "note: atheris not installed (C12 thorough tier will skip coverage-guided fuzzing)"
 fi
 /venv/bin/python -c "import hypothesis, marko, flowmark; print('setup ok: hypothesis', hypothesis.__version__)"
 mkdir -p out evidence
